@@ -5,6 +5,7 @@ plan, static file-system states, deterministic step budgets."""
 import concurrent.futures
 import json
 import os
+import re
 import shutil
 import subprocess
 import time
@@ -385,7 +386,8 @@ def run(tier, seed):
         if quick:
             jobs = Rng.for_case(seed, "c12-corpus", 0).sample(jobs, 150)
         log(f"[C12] corpus under step budgets: {len(jobs)} headers")
-        res = run_requests([{"op": "gen", "job": j, "arm_steps": True} for j in jobs], timeout=300)
+        res = run_requests([{"op": "gen", "job": j, "arm_steps": True, "fix": {"seed": 0, "reference": False}}
+                            for j in jobs], timeout=300)
         for j, r in zip(jobs, res):
             scen_total += 1
             outcomes[r.get("kind")] = outcomes.get(r.get("kind"), 0) + 1
@@ -396,6 +398,46 @@ def run(tier, seed):
             elif r.get("kind") in ("crash", "timeout"):
                 record({"class": r["kind"], "workload": j["id"], "tier": "corpus"},
                        {"kind": "corpus", "job": j, "observed": r})
+            else:
+                for run_ in (r.get("fix") or {}).get("runs", []):
+                    if run_.get("oscillation") is not None:
+                        record({"class": "non-termination", "analysis": run_["analysis"], "workload": j["id"]},
+                               {"kind": "corpus", "job": j, "observed": {"kind": "oscillation", "run": run_}})
+
+        # ---------------------------------------------------- configuration sweep (seeded sampling of the flag space)
+        ncfg = 1500 if quick else 40000
+        reqs = config_sweep_requests(seed, ncfg)
+        log(f"[C12] configuration sweep: {ncfg} (header, option set) samples")
+        res = run_requests(reqs, timeout=300, progress=5000)
+        rejected = 0
+        for rq, r in zip(reqs, res):
+            scen_total += 1
+            j = rq["job"]
+            k = r.get("kind")
+            if k == "crash" and r.get("status") == 2:
+                rejected += 1  # clap refused the option set: not a configuration
+                continue
+            outcomes[k] = outcomes.get(k, 0) + 1
+            distinct.add(("config", fp_flags(j)))
+            max_steps_ratio = max(max_steps_ratio, r.get("steps_ratio", 0))
+            if k == "panic":
+                site, msg = panic_site(r)
+                if "BINDGEN_VERIF_STEP_BUDGET_EXCEEDED" in (r.get("err") or ""):
+                    sig = {"class": "non-termination", "tier": "config-sweep", "site": site}
+                else:
+                    sig = {"class": "panic", "tier": "config-sweep", "site": site.rsplit(":", 1)[0],
+                           "what": re.sub(r"[0-9]+", "N", msg)[:60],
+                           "no_recursive_allowlist": "--no-recursive-allowlist" in j["flags"]}
+                record(sig, {"kind": "corpus", "job": j, "observed": r})
+            elif k in ("crash", "timeout"):
+                record({"class": k, "tier": "config-sweep", "signal": r.get("signal"), "header": j["id"].split(":", 1)[1]},
+                       {"kind": "corpus", "job": j, "observed": r})
+            else:
+                for run_ in (r.get("fix") or {}).get("runs", []):
+                    if run_.get("oscillation") is not None:
+                        record({"class": "non-termination", "tier": "config-sweep", "analysis": run_["analysis"]},
+                               {"kind": "corpus", "job": j, "observed": {"kind": "oscillation", "run": run_}})
+        config_stats = {"samples": ncfg, "rejected_by_cli_parser": rejected}
     finally:
         subprocess.run(["chmod", "-R", "u+rwx", root], stderr=subprocess.DEVNULL)
         shutil.rmtree(root, ignore_errors=True)
@@ -414,6 +456,7 @@ def run(tier, seed):
         "scenarios_where_no_fault_fired": trivial,
         "outcomes": outcomes,
         "max_step_budget_ratio_permille": max_steps_ratio,
+        "configuration_sweep": config_stats,
         "runs_per_hour": int(scen_total / hours),
         "simulated_time": "no clock; liveness is measured in loop iterations against item-count budgets",
         "real_vs_stub": {"bindgen": "real", "libclang": "real", "libc file syscalls on the input path": "real, "
@@ -528,12 +571,26 @@ def random_flags(rng, present):
     return flags
 
 
+def fp_flags(job):
+    return job["id"].split(":", 1)[1] + "|" + " ".join(job["flags"])
+
+
 def config_sweep_requests(seed, n):
-    jobs = corpus_jobs()
+    # operator_equals.hpp needs --represent-cxx-operators plus a cooperating callback: excluded by the property
+    jobs = [j for j in corpus_jobs() if "--represent-cxx-operators" not in j["flags"]]
+    data = os.path.join(os.path.dirname(os.path.dirname(os.path.abspath(__file__))), "data")
+    dense = [{"id": "dense.h", "header": os.path.join(data, "dense.h"), "flags": ["--", "-x", "c", "-std=c11"]},
+             {"id": "dense.hpp", "header": os.path.join(data, "dense.hpp"), "flags": ["--", "-x", "c++", "-std=c++17"]},
+             {"id": "dense.hpp", "header": os.path.join(data, "dense.hpp"),
+              "flags": ["--enable-cxx-namespaces", "--", "-x", "c++", "-std=c++17"]}]
+    for dj in dense:
+        dj["flags"] = ["--formatter=none"] + dj["flags"]
     reqs = []
     for i in range(n):
         rng = Rng.for_case(seed, "c12-config", i)
-        j = dict(rng.pick(jobs))
+        # half of the samples use the feature-dense headers so that an option
+        # combination meets the declaration shape it needs
+        j = dict(rng.pick(dense)) if rng.chance(500) else dict(rng.pick(jobs))
         flags = list(j["flags"])
         extra = random_flags(rng, flags)
         if "--" in flags:
